@@ -77,6 +77,7 @@ class EvalSeams:
         self.in_eval = False
         self.xs: list = []
         self.completed: list = []
+        self.finite: list = []  # did the completed evaluation return a finite penalty vector?
         self.penalties: list = []
         self.site_counts: dict = {}
         self.fired: list = []
@@ -85,6 +86,7 @@ class EvalSeams:
         self.line_total = 0
         self.line_site = None
         self.group_calls = 0
+        self.region_active = False
 
     # -- installation ------------------------------------------------------------
     def _patch(self, obj, name, new):
@@ -126,6 +128,7 @@ class EvalSeams:
             seams.site_counts = {}
             seams.xs.append(np.array(parameters, dtype=float, copy=True))
             seams.completed.append(False)
+            seams.finite.append(False)
             f = seams.fault
             tracing = False
             try:
@@ -146,6 +149,7 @@ class EvalSeams:
                     seams.line_total = max(seams.line_total, seams.line_count)
                 seams.in_eval = False
             seams.completed[-1] = True
+            seams.finite[-1] = bool(np.all(np.isfinite(out)))
             seams.penalties.append(np.array(out, dtype=float, copy=True))
             return out
 
@@ -159,6 +163,9 @@ class EvalSeams:
             if seams.on_group_calculate is not None:
                 seams.on_group_calculate(parameters)
             f = seams.fault
+            if f and f["kind"] == "region_nan":
+                v = parameters.get(f["param"]).value
+                seams.region_active = (f["dir"] == ">" and v > f["theta"]) or (f["dir"] == "<" and v < f["theta"])
             if f and f["kind"] == "region":
                 v = parameters.get(f["param"]).value
                 if (f["dir"] == ">" and v > f["theta"]) or (f["dir"] == "<" and v < f["theta"]):
@@ -230,6 +237,14 @@ class EvalSeams:
             seams._site("matrix")
             out = orig(mc, *a, **kw)
             f = seams.fault
+            if f and f["kind"] == "region_nan" and seams.region_active:
+                # persistent, parameter-dependent: the model yields non-finite numbers "out there" (no exception)
+                labels, matrix = out
+                matrix = np.array(matrix, dtype=float, copy=True)
+                matrix[...] = np.nan
+                if not seams.fired or seams.fired[-1].get("eval") != seams.eval_no:
+                    seams.fired.append({"kind": "region_nan", "eval": seams.eval_no, "in_ls": seams.in_ls})
+                return labels, matrix
             if (
                 seams.in_eval
                 and f
